@@ -66,7 +66,7 @@ def corpus(tier, rng):
         rest = [f for f in integ if f not in files]
         files += rng.sample(rest, min(4, len(rest))) + rng.sample(units, min(4, len(units)))
     else:
-        files = integ + units
+        files = integ + units[::2] + units[1::2][: len(units) // 4]
     sc += [f"pytest:{f}" for f in files]
     return sc
 
